@@ -345,8 +345,9 @@ PLACE_RULES = [
     ACTIVITY, SIZE_T_CAST, PRIO_ENUM, HINT_MODE_ENUM,
     Sub(r"\bdata\.", "data->", None),
     Sub(r"\bcurr_queue_\s*\+\+", "atomic_fetch_inc(&self->curr_queue_)", None),
-    Sub(r"std::unique_lock<pu_mutex_type>\s+(\w+)\s*;", r"int \1 = 0;", None),
-    Call(r"\bselect_active_pu", lambda a, env: "select_active_pu(self, %s, %s)" % (a[1], a[2] if len(a) > 2 else "false"), None),
+    Guard(r"std::unique_lock<pu_mutex_type>\s+(\w+)\s*;", r"struct ulock \1 = ulock_none();", r"ulock_dtor(&\1);", None),
+    Call(r"\bselect_active_pu(?!\s*\(\s*self\b)", lambda a, env: "select_active_pu(self, &%s, %s, %s)" % (a[0], a[1], a[2] if len(a) > 2 else "false"), None),
+    Sub(r"\b(\w+)\.unlock\(\)", r"ulock_unlock(&\1)", None),
     # which container receives which call with which index is the code's; the rule only binds container -> stub
     Sub(r"\bhigh_priority_queues_\[([^\]]+)\]\.data_->(create_thread|schedule_thread)\(", r"hp_\2(self, \1, ", None),
     Sub(r"\bqueues_\[([^\]]+)\]\.data_->(create_thread|schedule_thread)\(", r"np_\2(self, \1, ", None),
